@@ -27,6 +27,7 @@ type Env struct {
 	visLoc, visHeap string // ghost visited set of the enclosing range-over-map loop
 	addrOf func(name string) (Val, bool) // address of a cell-backed local variable
 	callArgs []Val // arguments of the call an assertion is anchored at (arg(k))
+	allocLo string // allocated(x) additionally requires rt(x) > allocLo (objects allocated by one call)
 }
 
 func (e *Env) clone() *Env {
@@ -757,6 +758,33 @@ func (vc *VC) evalSpecCall(env *Env, x *SCall) Val {
 			return Val{T: And(App("(_ is L)", App("if.ptr", v.T)), App(">", App("rt", App("if.ptr", v.T)), env.old.Top)), Typ: boolT}
 		}
 		return vc.specErr("fresh of %s", v.Typ)
+	case "allocated":
+		// allocated(x): x is (or holds) a pointer to an object that exists in the
+		// current state
+		v := arg(0)
+		var p string
+		switch vc.sorts.SortOf(v.Typ) {
+		case "Loc":
+			p = v.T
+		case "Slice":
+			p = App("sl.base", v.T)
+		case "Iface":
+			p = App("if.ptr", v.T)
+		default:
+			return vc.specErr("allocated of %s", v.Typ)
+		}
+		cs := []string{App("(_ is L)", p), App(">=", App("rt", p), "0"), App("<=", App("rt", p), env.st.Top)}
+		if env.allocLo != "" {
+			cs = append(cs, App(">", App("rt", p), env.allocLo))
+		}
+		return Val{T: And(cs...), Typ: boolT}
+	case "tagof":
+		// tagof(x): the dynamic type of interface x as an integer (0 for nil)
+		v := arg(0)
+		if vc.sorts.SortOf(v.Typ) != "Iface" {
+			return vc.specErr("tagof of %s", v.Typ)
+		}
+		return Val{T: App("if.tag", v.T), Typ: intT}
 	case "freshsince":
 		// freshsince(N, x): x was allocated after loop N was entered
 		n, isInt := x.Args[0].(*SInt)
